@@ -94,6 +94,7 @@ type bfClosure struct {
 	fn   *ssa.Function
 	bind []any
 }
+
 // bfOpaqueFn: a function value the rule models itself (the hash function stored in a structure)
 type bfOpaqueFn struct{ name string }
 
